@@ -611,6 +611,16 @@ def main():
             undecided.append("bounded validation: the stub contracts of %s do not describe the unchanged real code: %s" % (bname, b["input"]))
         elif stale:
             undecided.append("bounded stand-in for %s: %s (%s); the changed SQL is still undecided" % (bname, b["outcome"], b["input"] or ("%d sequences" % b["sequences"])))
+    # thorough tier: the replay searches are also run as bounded validations of the abstract view the contracts describe
+    # against the real code (no obligation needs to have failed)
+    if tier == "thorough" and not violations and not os.environ.get("VERIF_NO_BOUNDED"):
+        for u in units:
+            if u["name"] in replay_mod.SEARCHES:
+                sr = replay_mod._run(*replay_mod.SEARCHES[u["name"]])
+                bounded_notes.append({"name": "replay search " + u["name"], "bounded": True, "bound": replay_mod.SEARCHES[u["name"]][4], "outcome": sr["outcome"], "input": sr["found"],
+                                      "why": "thorough tier: the real code is driven through the enumerated space and compared with the abstract view of the contracts"})
+                if sr["found"]:
+                    undecided.append("bounded validation: the real %s deviates from the abstract view of the contracts although every obligation is discharged: %s" % (u["name"], sr["found"]))
     replays = []
     if violations:
         os.makedirs(REPLAYS, exist_ok=True)
@@ -683,7 +693,7 @@ def main():
             "vacuity_guards": canaries,
             "known_findings_reported": [k["id"] for k, _ in knowns],
             "undecided": undecided,
-            "bounded_checks": [b for r in results for b in r.get("bounded", [])],
+            "bounded_harnesses": [b for r in results for b in r.get("bounded", [])],
         },
         "assumptions": sorted(set(a for u in units for a in u.get("assumptions", []))),
         "wall_s": round(time.time() - t0, 2),
